@@ -18,6 +18,16 @@ import types
 Pickler = pickle._Pickler
 
 
+def _is_strictly_sorted(sequence):
+    """Check that the sorted sequence is a chain for the order of its items.
+
+    Some types (e.g. sets and frozensets, or tuples of them) are only
+    partially ordered: sorting them does not fail but the result depends on
+    the initial order of the items.
+    """
+    return all(a < b for a, b in zip(sequence, sequence[1:]))
+
+
 class _ConsistentSet(object):
     """Class used to ensure the hash of Sets is preserved
     whatever the order of its items.
@@ -31,6 +41,8 @@ class _ConsistentSet(object):
             # This fails on python 3 when elements are unorderable
             # but we keep it in a try as it's faster.
             self._sequence = sorted(set_sequence)
+            if not _is_strictly_sorted(self._sequence):
+                raise TypeError("elements are only partially ordered")
         except (TypeError, decimal.InvalidOperation):
             # If elements are unorderable, sorting them using their hash.
             # This is slower but works in any case.
@@ -141,18 +153,20 @@ class Hasher(Pickler):
     # additional 'obj' argument in Python 3.14
     def _batch_setitems(self, items, *args):
         # forces order of keys in dict to ensure consistent hash.
+        items = list(items)
         try:
             # Trying first to compare dict assuming the type of keys is
             # consistent and orderable.
             # This fails on python 3 when keys are unorderable
             # but we keep it in a try as it's faster.
-            Pickler._batch_setitems(self, iter(sorted(items)), *args)
+            sorted_items = sorted(items)
+            if not _is_strictly_sorted([k for k, _ in sorted_items]):
+                raise TypeError("keys are only partially ordered")
         except TypeError:
             # If keys are unorderable, sorting them using their hash. This is
             # slower but works in any case.
-            Pickler._batch_setitems(
-                self, iter(sorted((hash(k), v) for k, v in items)), *args
-            )
+            sorted_items = sorted((hash(k), v) for k, v in items)
+        Pickler._batch_setitems(self, iter(sorted_items), *args)
 
     def save_set(self, set_items):
         # forces order of items in Set to ensure consistent hash
